@@ -208,6 +208,19 @@ def run(ctx):
                 continue
             kn_cases.append((n, x, num, ref, val, refv))
             ctx.case(("kn", n, x))
+            # inside a composite expression the incoming cotangent is not 1: c * K_n(x)^2 has derivative 2 c K_n K_n'
+            if (n + int(round(x * 10))) % 3 == 0:
+                cfac = 0.5 + (n % 4)
+                try:
+                    r2 = pe.derived_observable(lambda a, **kw: cfac * sp.kn(n, a[0]) ** 2, [o])
+                    num2 = float(np.dot(r2.deltas["ens"], o.deltas["ens"]) / np.dot(o.deltas["ens"], o.deltas["ens"]))
+                except Exception as e:
+                    ctx.fail("kn:raises", "c * kn(%d, Obs(%r)) ** 2 raised %r" % (n, x, e), {"n": n, "x": x})
+                    continue
+                ref2, refv2 = 2 * cfac * refv * ref, cfac * refv ** 2
+                if np.isfinite(num2) and np.isfinite(ref2) and np.isfinite(r2.value):
+                    kn_cases.append((n, x, num2, ref2, float(r2.value), refv2))
+                    ctx.case(("kn-composite", n, x))
     # non-integer order must be rejected
     for bad_n in (0.5, 1.25, 2.000001):
         try:
